@@ -129,9 +129,50 @@ def flatten(acts):
     return out
 
 
+MUTATORS = {"clear", "append", "update", "setdefault", "pop", "popitem", "add", "remove", "discard", "extend", "insert", "__setitem__", "sort", "reverse"}
+
+
+def unmodelled_writes(path, roots=("find_relationship_path",)):
+    """Every write to an attribute of self (rebinding, item assignment, deletion, mutating method call) in the methods reachable
+    from the planning entry points through self.<method>() calls.  The model knows only SHARED; any other written attribute is
+    planning state the proofs do not cover (e.g. a memo of resolved paths), so the extraction fails closed."""
+    mod = ast.parse(open(path).read())
+    cls = next(n for n in mod.body if isinstance(n, ast.ClassDef) and n.name == "SemanticGraph")
+    fns = {f.name: f for f in cls.body if isinstance(f, ast.FunctionDef)}
+    seen, todo, found = set(), list(roots), []
+    while todo:
+        name = todo.pop()
+        if name in seen or name not in fns:
+            continue
+        seen.add(name)
+        for n in ast.walk(fns[name]):
+            if isinstance(n, ast.Call) and is_self_attr(n.func) and n.func.attr in fns:
+                todo.append(n.func.attr)
+            targets = []
+            if isinstance(n, (ast.Assign, ast.AnnAssign, ast.AugAssign)):
+                targets = n.targets if isinstance(n, ast.Assign) else [n.target]
+            elif isinstance(n, ast.Delete):
+                targets = n.targets
+            for t in targets:
+                for sub in ast.walk(t):
+                    if is_self_attr(sub) and sub.attr not in SHARED:
+                        found.append((sub.attr, name, getattr(n, "lineno", 0)))
+            if isinstance(n, ast.Call) and isinstance(n.func, ast.Attribute) and n.func.attr in MUTATORS:
+                base = n.func.value
+                while isinstance(base, ast.Subscript):
+                    base = base.value
+                if is_self_attr(base) and base.attr not in SHARED:
+                    found.append((base.attr, name, n.lineno))
+    return found
+
+
 def program(repo):
     import os
-    return flatten(skeleton(os.path.join(repo, "sidemantic/core/semantic_graph.py")))
+    path = os.path.join(repo, "sidemantic/core/semantic_graph.py")
+    extra = unmodelled_writes(path)
+    if extra:
+        raise Unsupported("planning call writes state the model does not know: " + ", ".join("self.%s in %s (line %d)" % e for e in extra[:4]))
+    return flatten(skeleton(path))
 
 
 def generate(repo):
